@@ -34,12 +34,18 @@ WRAPPERS = {
     "next_prime": (["lhs"], "sympy.nextprime(lhs)"),
     "prev_prime": (["lhs"], "sympy.prevprime(int(lhs)) if lhs >= 3 else 1"),
     "vy_hex": (["lhs"], "hex(lhs)[2:]"),
+    # explicit ranges: fixed bounds, independent of the implicit-range flags (M, m, Ṁ only move ctx.range_start / range_end)
+    "inclusive_one_range": (["lhs"], "LazyList(range(1, int(lhs) + 1))"),
+    "inclusive_zero_range": (["lhs"], "LazyList(range(0, int(lhs) + 1))"),
+    "exclusive_one_range": (["lhs"], "LazyList(range(1, int(lhs)))"),
+    "exclusive_zero_range": (["lhs"], "LazyList(range(0, int(lhs)))"),
     "vy_bin": (["lhs"], "vectorise(negate, [int(x) for x in bin(int(lhs))[3:]], ctx=ctx) if lhs < 0 else [int(x) for x in bin(int(lhs))[2:]]"),
 }
+INT_ARGS = {"inclusive_one_range", "inclusive_zero_range", "exclusive_one_range", "exclusive_zero_range"}
 for _f, (_params, _expr) in WRAPPERS.items():
     W.contract(
         f"vyxal/elements.py::{_f}#number",
-        params={**{p: VAL for p in _params}, "ctx": VAL}, setup=_setup,
+        params={**{p: (INT if _f in INT_ARGS else VAL) for p in _params}, "ctx": VAL}, setup=_setup,
         ensures=[f"result == ({_expr})"], ensures_names=["reaches-the-defining-library-call"],
         executor="template", frame_check=False, may_raise=True, fuel=1,
         note="number overload; the library call is an uninterpreted function assumed to meet its textbook definition",
